@@ -745,7 +745,7 @@ func init() {
 	register(&Check{
 		ID: "C10", Level: "exploration", MinNontriv: 10,
 		Anchors: []string{"pkg/net/multiplex/mux.go", "pkg/net/multiplex/ttrpc.go", "pkg/net/conn.go"},
-		Rule:    "rounds over two real Mux endpoints: K in 1..8 connection ids (incl. 2^31, 0xfffffffe), W in 1..4 writers per connection per direction in both directions at once, queue lengths {2,4,8,256}, trunks unix socketpair and net.Pipe, self-describing messages with payloads {0,1,7,4K, frame-1, frame, frame+1, 2*frame+3, random} and empty writes; harness-side credit keeps every receiver within the queue length; per-lane incremental stream parser (completeness, per-writer sequence, pattern, connection id), real-time order across writers, porcupine FIFO model on histories <= 100 ops; handle scenarios: concurrent Open/Dialer of one id, close and reopen, locally closed connection isolation, stale handle closed again after reopen, kept dial function used again after close, 2 x 2.3 MB both ways while both ends open and close other ids, late reader within queue lengths 1/3/300/1000; distinct = distinct round configurations plus distinct writer interleavings observed in delivered streams",
+		Rule:    "rounds over two real Mux endpoints: K in 1..8 connection ids (incl. 2^31, 0xfffffffe), W in 1..4 writers per connection per direction in both directions at once, queue lengths {2,4,8,256}, trunks unix socketpair and net.Pipe, self-describing messages with payloads {0,1,7,4K, frame-1, frame, frame+1, 2*frame+3, random} and empty writes; harness-side credit keeps every receiver within the queue length; per-lane incremental stream parser (completeness, per-writer sequence, pattern, connection id), real-time order across writers, porcupine FIFO model on histories <= 100 ops; handle scenarios: concurrent Open/Dialer of one id, close and reopen, locally closed connection isolation, stale handle closed again after reopen, kept dial function used again after close, 2 x 2.3 MB both ways while both ends open and close other ids, late reader within queue lengths 1/3/300/1000; two muxes built from one WithBlockedRead option list with frames sent before Open and Unblock; distinct = distinct round configurations plus distinct writer interleavings observed in delivered streams",
 		Assumptions: []string{
 			"readers pass a buffer of one full frame (the multiplexer is frame-oriented)",
 			"every connection id is opened on both ends before traffic starts (frames for ids not yet opened are dropped by design)",
